@@ -12,7 +12,7 @@ from mc.common import LogCapture, call, classify_exc, exc_text
 PROPERTY = "C32"
 LEVEL = "model_checking"
 RULE = (
-    "complete product: 8 states of the node table x 8 states of the mutation table {tsdate's own default schema with extra keys (a re-dated, annotated input); no schema & no metadata; permissive JSON with other "
+    "complete product: 9 states of the node table x 9 states of the mutation table {tsdate's own default schema with extra keys (a re-dated, annotated input); permissive JSON with the same annotation on every row; no schema & no metadata; permissive JSON with other "
     "fields; JSON additionalProperties=false; JSON with mn typed as string; struct codec with mn/vr members; struct codec without them; raw "
     "bytes without schema} x set_metadata {None, True, False} x 3 methods on 4 inputs. oracle = decision table from the statement, with "
     "'the schema can encode them' decided independently by a tskit encode/decode round trip of a probe row: False -> schema and metadata "
@@ -23,7 +23,7 @@ RULE = (
 )
 ASSUMPTIONS = ["4 inputs (single tree, two multi-tree ARGs, one with an above-root mutation)"]
 
-STATES = ["empty", "permissive", "closed", "mn_string", "struct_with", "struct_without", "rawbytes", "tsdate_default_plus_extra"]
+STATES = ["empty", "permissive", "closed", "mn_string", "struct_with", "struct_without", "rawbytes", "tsdate_default_plus_extra", "permissive_uniform"]
 CLOSED = tskit.MetadataSchema({"codec": "json", "type": "object", "properties": {"name": {"type": "string"}}, "additionalProperties": False})
 MN_STRING = tskit.MetadataSchema({"codec": "json", "type": "object", "properties": {"mn": {"type": "string"}, "name": {"type": "string"}}})
 
@@ -39,7 +39,7 @@ def cases(tier, seed):
     for i, a in enumerate(picks):
         for ns, ms in itertools.product(STATES, STATES):
             out.append({"arg": a, "node_state": ns, "mut_state": ms, "above_root": int(i == 3)})
-    return {"cases": out, "states": len(out), "transitions": len(out) * 9, "bound": "4 inputs x 8x8 table states x set_metadata (3) x methods (3)", "exhaustive": True}
+    return {"cases": out, "states": len(out), "transitions": len(out) * 9, "bound": "4 inputs x 9x9 table states x set_metadata (3) x methods (3)", "exhaustive": True}
 
 
 def set_state(table, state, n):
@@ -47,6 +47,8 @@ def set_state(table, state, n):
         return
     if state == "permissive":
         xdecor._set_md(table, xdecor.PERMISSIVE, [{"name": f"x{i}", "k": i} for i in range(n)])
+    elif state == "permissive_uniform":
+        xdecor._set_md(table, xdecor.PERMISSIVE, [{"src": "pipeline"} for _ in range(n)])  # byte-identical rows
     elif state == "closed":
         xdecor._set_md(table, CLOSED, [{"name": f"x{i}"} for i in range(n)])
     elif state == "mn_string":
